@@ -43,7 +43,17 @@ Proof.
   split; [vm_compute; reflexivity|split; [vm_compute; discriminate|split; [vm_compute; reflexivity|vm_compute; discriminate]]].
 Qed.
 
+(* statement headers: an if / else-if ladder written by the printer is read back with every rung's own init
+   statement, condition and block, and the else block, whatever follows it (anything but another "else") *)
+Theorem C05_if_ladder_roundtrip : forall l rest,
+  no_else rest -> parse_ladder (print_ladder l ++ rest) = Some (l, rest).
+Proof. exact parse_print_ladder. Qed.
+
 (* non-vacuity *)
+Example C05_if_ladder_ex :
+  parse_ladder (print_ladder (mkLadder (mkRung (Some 1) 2 3) [mkRung (Some 4) 5 6; mkRung None 7 8] (Some 9)) ++ [HIf])
+  = Some (mkLadder (mkRung (Some 1) 2 3) [mkRung (Some 4) 5 6; mkRung None 7 8] (Some 9), [HIf]).
+Proof. vm_compute. reflexivity. Qed.
 Definition ex_toks : list etok :=
   [TSp (L "!"); TLP; TIdent (L "a"); TSp (L "+"); TInt (L "2"); TSp (L "*"); TSp (L "-"); TSp (L "-"); TIdent (L "b");
    TSp (L "<"); TInt (L "7"); TRP; TSp (L "||"); TStr (L "s"); TSp (L "=="); TIdent (L "t")].
